@@ -310,7 +310,7 @@ func judge(p docgen.Plan, o *vh.Obs) {
 
 func init() {
 	vh.Describe(
-		"Cases are document plans as in C01 restricted to the 'currency' rounding rule (requested explicitly, or the regime default of Greece), including tax-included prices and prices finer than the currency; fixed discount / charge / advance amounts and charge rates are supplied at the currency's precision as the property states. The checker sees only the calculated JSON and re-adds every identity the statement lists in exact rationals. Non-trivial: the reference calculator (used for classification only) saw at least one intermediate that differs from its presented rounding. `preceding`: invoices / orders / deliveries in five currencies (0, 2 and 3 decimals) with 1-3 preceding references, each with or without a currency of its own and a tax summary of 1-2 categories (one retained) x 1-3 rate rows (bases at the reference currency's precision, percentages, exempt rows, surcharges): after calculation every figure of each summary has the decimals of the reference's currency (else the document's), each amount and surcharge is its percentage of the presented base rounded to that precision, categories and the sum add up (precise rule: amounts within one unit).",
+		"Cases are document plans as in C01 restricted to the 'currency' rounding rule (requested explicitly, or the regime default of Greece), including tax-included prices and prices finer than the currency; fixed discount / charge / advance amounts and charge rates are supplied at the currency's precision as the property states. The checker sees only the calculated JSON and re-adds every identity the statement lists in exact rationals. Non-trivial: the reference calculator (used for classification only) saw at least one intermediate that differs from its presented rounding. `preceding`: invoices / orders / deliveries in five currencies (0, 2 and 3 decimals) with 1-3 preceding references, each with or without a currency of its own and a tax summary of 1-2 categories (one retained) x 1-3 rate rows (bases written with the reference currency's decimals, with fewer and with more; percentages, exempt rows, surcharges): after calculation every figure of each summary has the decimals of the reference's currency (else the document's), each amount and surcharge is its percentage of the presented base rounded to that precision, categories and the sum add up (precise rule: amounts within one unit).",
 		"only the identities the statement enumerates are asserted (nothing about rate bases summing to the total)",
 	)
 	gen := func(t *rapid.T) docgen.Plan {
